@@ -23,7 +23,8 @@ EXPLANATION = (
     'address, real name and the stored password, the user name buffer being filled only from the ident or '
     'the claimed name; (BND.1) every copy sink on the input path matches a bounded idiom; (GRD.2) the '
     'password is stored and forwarded only after the mode-prefix test and the account/password separator '
-    'test; (WMC.1) queries are sent only by the builder and the MORE path.  String contents are not decided.')
+    'test; (WMC.1) queries are sent only by the builder and the MORE path.  String contents are not decided.'
+    ' Rounds 8-9: (MPT.4) a slot that changes hands forgets its per-client bits - eagerly, or lazily by epochs with every look at a mask reached only on an up-to-date client; (COPY.1/MPT.5/MPT.6) shared: the parser\'s group move, merge change tracking, required-data mask; (BND.6) the program\'s own strlcpy keeps its contract.')
 ASSUMPTIONS = ['clang 14 CFG; the module constructor is straight-line code', 'documented prerequisite table from the property statement and the header comment of iauth_xquery.c']
 
 EXPECTED = {
